@@ -5,7 +5,7 @@ from . import common, projgen, projcheck, projrun
 PROF = projgen.profile(p_subdir=0.7, p_defaults=0.6, p_ctxlist=0.4, p_multidoc=0.4, p_shadow=0.4, p_include=0.3, p_removes=0.3,
                        p_tasks=0.1, p_custom_build=0.03, p_download=0.03, p_varopts=0.05)
 # for the inlining metamorphic test: defaults that CAN be written inline (no if-then maps, no early variables, no '-name' in defaults)
-PROF_INLINE = projgen.profile(p_subdir=0.0, p_defaults=0.9, p_ctxlist=0.0, p_multidoc=0.3, p_include=0.0, p_removes=0.15, p_ifthen=0.0,
+PROF_INLINE = projgen.profile(p_subdir=0.6, p_defaults=0.8, p_ctxlist=0.0, p_multidoc=0.3, p_include=0.0, p_removes=0.15, p_ifthen=0.0,
                               p_tasks=0.05, p_custom_build=0.0, p_download=0.0, p_varopts=0.05, p_optsrc=0.0)
 OBS = ("status", "decision", "modules", "global_env", "module_env", "outfile", "tasks", "ninja")
 EARLY = ("${relpath}", "${srcdir}", "${root}")
@@ -18,48 +18,109 @@ def merge_env(d, o):
     return out
 
 
+def apply_defaults(d, m):
+    """module/app `m` with the entries of defaults `d` written in front of its own; None if not expressible inline"""
+    m = copy.deepcopy(m)
+    if not d:
+        return m
+    for fld in ("depends", "selects", "uses"):
+        for e in d.get(fld) or []:
+            if not isinstance(e, str) or e.startswith("-"):
+                return None
+    dj = json.dumps(d.get("env", {}))
+    if any(x in dj for x in EARLY) or "$(" in dj or "\\\\$" in dj:
+        return None
+    # laze turns the defaults' `depends` into selects+imports when they are converted
+    dsel = list(d.get("selects") or []) + list(d.get("depends") or [])
+    dimp = list(d.get("uses") or []) + list(d.get("depends") or [])
+    if dsel:
+        m["selects"] = dsel + list(m.get("selects") or [])
+    if dimp:
+        if any(not isinstance(e, str) for e in m.get("uses") or []):
+            return None
+        m["uses"] = dimp + list(m.get("uses") or [])
+    if d.get("sources"):
+        m["sources"] = list(d["sources"]) + list(m.get("sources") or [])
+    for fld in ("conflicts", "provides", "provides_unique"):
+        if d.get(fld):
+            # laze appends conflicts, then provides, then provides_unique (twice): order inside the lists is irrelevant to the result
+            m[fld] = list(d[fld]) + list(m.get(fld) or [])
+    for fld in ("blocklist", "allowlist"):
+        if d.get(fld) is not None:
+            m[fld] = list(d[fld]) + list(m.get(fld) or [])
+    if d.get("env"):
+        env = m.setdefault("env", {})
+        for layer, de in d["env"].items():
+            env[layer] = merge_env(de, env.get(layer) or {})
+    return m
+
+
 def inline_defaults(p):
-    """the manually expanded equivalent: defaults written in front of each module's own entries; None if not expressible"""
+    """the manually expanded equivalent: the defaults (a file's own, on top of those inherited from the document that listed the file
+    under subdirs) written in front of each module's own entries; None if not expressible"""
+    import os
     q = copy.deepcopy(p)
-    changed = False
-    for path, docs in q["files"].items():
-        for doc in docs:
-            dfl = doc.pop("defaults", None)
-            if not dfl:
-                continue
-            for key, kind in (("module", "modules"), ("app", "apps")):
-                d = dfl.get(key)
-                if not d:
-                    continue
-                for fld in ("depends", "selects", "uses"):
-                    for e in d.get(fld) or []:
-                        if not isinstance(e, str) or e.startswith("-"):
-                            return None
-                if any(x in json.dumps(d.get("env", {})) for x in EARLY) or "$(" in json.dumps(d.get("env", {})) or "\\\\$" in json.dumps(d.get("env", {})):
+    files = q["files"]
+    # who lists whom: file -> (path, doc index) of the listing document; ambiguous when listed twice
+    parent = {}
+    for path, docs in files.items():
+        base = os.path.dirname(path)
+        for i, doc in enumerate(docs):
+            kids = [os.path.normpath(os.path.join(base, sd, "laze.yml")) for sd in doc.get("subdirs") or []]
+            kids += [os.path.normpath(os.path.join(base, inc)) for inc in doc.get("includes") or []]
+            for k in kids:
+                if k in parent:
                     return None
-                for m in doc.get(kind) or []:
+                parent[k] = (path, i)
+    memo = {}
+    BAD = object()
+
+    def eff(path, i, key):
+        """the effective defaults of document i of `path` for `key`; BAD if not expressible"""
+        if (path, i, key) in memo:
+            return memo[(path, i, key)]
+        inherited = None
+        if os.path.normpath(path) in parent:
+            pp, pi = parent[os.path.normpath(path)]
+            if "subdirs" in files[pp][pi]:          # only documents with sub-directories hand their defaults down
+                inherited = eff(pp, pi, key)
+        own = (files[path][i].get("defaults") or {}).get(key)
+        if inherited is BAD:
+            res = BAD
+        elif own is not None:
+            if own.get("context") is not None:
+                res = BAD
+            else:
+                res = apply_defaults(inherited, own)
+                res = BAD if res is None else res
+        else:
+            res = inherited
+        memo[(path, i, key)] = res
+        return res
+
+    changed = False
+    out = {}
+    for path, docs in files.items():
+        for i, doc in enumerate(docs):
+            for key, kind in (("module", "modules"), ("app", "apps")):
+                d = eff(path, i, key)
+                if d is BAD:
+                    return None
+                if not d or not doc.get(kind):
+                    continue
+                ms = []
+                for m in doc[kind]:
+                    m2 = apply_defaults(d, m)
+                    if m2 is None:
+                        return None
                     changed = True
-                    dsel = list(d.get("selects") or []) + list(d.get("depends") or [])
-                    dimp = list(d.get("uses") or []) + list(d.get("depends") or [])
-                    if dsel:
-                        m["selects"] = dsel + list(m.get("selects") or [])
-                    if dimp:
-                        if any(not isinstance(e, str) for e in m.get("uses") or []):
-                            return None
-                        m["uses"] = dimp + list(m.get("uses") or [])
-                    if d.get("sources"):
-                        m["sources"] = list(d["sources"]) + list(m.get("sources") or [])
-                    for fld in ("conflicts", "provides", "provides_unique"):
-                        if d.get(fld):
-                            # laze appends conflicts, then provides, then provides_unique (twice): order inside the lists is irrelevant to the result
-                            m[fld] = list(d[fld]) + list(m.get(fld) or [])
-                    for fld in ("blocklist", "allowlist"):
-                        if d.get(fld) is not None:
-                            m[fld] = list(d[fld]) + list(m.get(fld) or [])
-                    if d.get("env"):
-                        env = m.setdefault("env", {})
-                        for layer, de in d["env"].items():
-                            env[layer] = merge_env(de, env.get(layer) or {})
+                    ms.append(m2)
+                out[(path, i, kind)] = ms
+    for (path, i, kind), ms in out.items():
+        files[path][i][kind] = ms
+    for docs in files.values():
+        for doc in docs:
+            doc.pop("defaults", None)
     return q if changed else None
 
 
@@ -148,7 +209,7 @@ def run(chk):
                 "non-trivial = defaults or a context list actually change a loaded module and the project is accepted; distinct by project hash")
     projcheck.campaign(chk, PROF, n, OBS, None, loaded_changed)
     k = 60 if chk.tier == "quick" else 1500
-    jobs = [("inline", projgen.gen_project(chk.seed + 1700, i, PROF_INLINE), i) for i in range(k)]
+    jobs = [("inline", projgen.gen_project(chk.seed + 1700, i, PROF_INLINE), i) for i in range(4 * k)]
     jobs += [("ctxlist", projgen.gen_project(chk.seed + 1750, i, PROF), i) for i in range(k)]
     jobs += [("reject", projgen.gen_project(chk.seed + 1790, i, projgen.DEFAULT_PROFILE), chk.seed * 17 + i) for i in range(k // 2)]
     pairs = [("corpus:" + c["signature"], c["project"], c["expanded"]) for c in common.load_corpus("C17") if c.get("pair")]
